@@ -90,6 +90,13 @@ def ob_phase_unwrap(W, nb):
     pi = R.PI if W.sym else float(R.PI)
     e = R.el
     W.goal("unwrapped[0]=wrapped[0]", W.eq(e(ru, 0), e(rr, 0)))
+    # the wrapped views read AFTER the unwrapped ones are still the wrapped phase (what a fresh result gives, inside [-pi, pi])
+    r0 = R.mk(W, bins, True, fs)
+    rr0, dd0, dd = r0.cf_rad, r0.cf_deg, r.cf_deg
+    for i in range(nb):
+        W.goal("cf_rad[%d] read after the unwrapped views = cf_rad of a fresh result" % i, W.eq(e(rr, i), e(rr0, i)))
+        W.goal("cf_deg[%d] read after the unwrapped views = cf_deg of a fresh result" % i, W.eq(e(dd, i), e(dd0, i)))
+        W.goal("cf_rad[%d] stays within [-pi, pi]" % i, W.And(W.le(e(rr, i), pi), W.ge(e(rr, i), -pi)))
     for i in range(nb):
         W.goal("deg_unwrapped[%d]*pi = rad_unwrapped[%d]*180" % (i, i), W.eq(e(du, i) * pi, e(ru, i) * 180))
     for i in range(1, nb):
